@@ -146,7 +146,7 @@ PROPS["C03"] = {
 }
 PROPS["C06"] = {
     "modules": ["C06", "C06b"],
-    "families": ["OF"], "ops": "api,apix,enc,prog,embed", "gen_deps": [],
+    "families": ["OF"], "ops": "api,apix,enc,prog,embed,embedw", "gen_deps": [],
     "rule": ENC_RULE, "trivial_outputs": ["panic", "err"],
     "level_text": "Theorems: fill_exact / fill_length — the make(Len())+copy idiom returns exactly Len() bytes and, when the pieces fit, their concatenation plus zero padding (the general lemma every container theorem instantiates); all 30 match-payload kinds: size = encoding length and neither call modifies the value; match field and match: encoding length = reported size for any content, match size multiple of 8. Oracle: reported size before and after encoding = bytes produced, on every API-built value of every kind. Container theorems for actions / instructions / messages are pending (decided by oracle + correspondence).",
     "level_note": OF_NOTE,
